@@ -107,6 +107,19 @@ func contentFor(rng *rand.Rand, cls string, small []xy) []byte {
 		return append([]byte{byte(2 + sp.y.Bit(0))}, be32(new(big.Int).Add(sp.x, bigP))[:]...)
 	case "offcurve":
 		return encUnc(xy{g.x, add(g.y, 1)})
+	case "nearcurve": // off the curve, but y^2 and x^3 + 7 agree in all internal limbs but one
+		ps := nearCurvePoints(rng, 1)
+		if len(ps) > 0 {
+			return encUnc(ps[rng.Intn(len(ps))])
+		}
+		return encUnc(xy{g.x, add(g.y, 1)})
+	case "coords_near": // x || y of such a point, for the coordinate constructor
+		ps := nearCurvePoints(rng, 1)
+		if len(ps) > 0 {
+			p := ps[rng.Intn(len(ps))]
+			return append(append([]byte{}, be32(p.x)[:]...), be32(p.y)[:]...)
+		}
+		return append(append([]byte{}, be32(g.x)[:]...), be32(add(g.y, 1))[:]...)
 	case "nonresidue":
 		x := randBig(rng, bigP)
 		for sqrtP(yyOf(x)) != nil {
@@ -247,28 +260,51 @@ func driveAPI(c *ctx) {
 				}
 			}
 		}
-		pl := &apiPool{}
-		for i := 0; i < np; i++ {
-			pl.pt = append(pl.pt, new(secp256k1.Point))
-		}
-		for i := 0; i < ns; i++ {
-			pl.sc = append(pl.sc, secp256k1.NewScalar())
-		}
-		for i := 0; i < nb; i++ {
-			pl.buf = append(pl.buf, []byte{})
-		}
-		c.nextTrace()
-		c.E("api.Reset", append([]any{"np", np, "ns", ns, "nb", nb, "file", filepath.Base(fn)}, pl.project()...)...)
-		// every third schedule runs BLIND: the pool is not looked at (no accessor of any object is called by the harness) until the
-		// last step, so that state an object builds lazily on first use is still unbuilt when the scheduled calls reach it
-		blind := fi%3 == 1
-		for _, s := range steps {
-			if s.Op == "key.Generate" || s.Op == "skey.Generate" { // the generated key is only known by looking at it
-				blind = false
-			}
+		// schedules that touch key objects run twice, once sighted and once blind (the first call of an accessor must be able to be
+		// the scheduled one, not the harness looking at the pool); the others run blind every third time
+		keyOps := false
+		generates := false
+		loads := false
+		ctxLen := 0 // the shared context of the systematic schedules (it builds keys and a signature itself) does not count
+		if len(steps) > 11 && steps[0].Op == "pt.Generator" && steps[8].Op == "key.NewPrivate" && steps[10].Op == "key.Sign" {
+			ctxLen = 11
 		}
 		for si, s := range steps {
-			execAPI(c, rng, pl, s, small, blind && si != len(steps)-1)
+			if si >= ctxLen && (strings.HasPrefix(s.Op, "key.") || strings.HasPrefix(s.Op, "skey.") || strings.HasPrefix(s.Op, "spub.") || strings.HasPrefix(s.Op, "btc.")) {
+				keyOps = true
+			}
+			if s.Op == "key.Generate" || s.Op == "skey.Generate" { // the generated key is only known by looking at it
+				generates = true
+			}
+			if si >= ctxLen && s.Op == "env.LoadBuf" && len(steps) <= 24 { // the byte-class enumerations keep the one-in-three rule
+				loads = true
+			}
+		}
+		if loads {
+			keyOps = false
+		}
+		modes := []bool{fi%3 == 1 && !generates}
+		if keyOps && !generates && len(steps) <= 24 {
+			modes = []bool{false, true}
+		}
+		for _, blind := range modes {
+			pl := &apiPool{}
+			for i := 0; i < np; i++ {
+				pl.pt = append(pl.pt, new(secp256k1.Point))
+			}
+			for i := 0; i < ns; i++ {
+				pl.sc = append(pl.sc, secp256k1.NewScalar())
+			}
+			for i := 0; i < nb; i++ {
+				pl.buf = append(pl.buf, []byte{})
+			}
+			c.nextTrace()
+			c.E("api.Reset", append([]any{"np", np, "ns", ns, "nb", nb, "file", filepath.Base(fn)}, pl.project()...)...)
+			// BLIND: the pool is not looked at (no accessor of any object is called by the harness) until the last step, so that state
+			// an object builds lazily on first use is still unbuilt when the scheduled calls reach it
+			for si, s := range steps {
+				execAPI(c, rng, pl, s, small, blind && si != len(steps)-1)
+			}
 		}
 	}
 	c.sticky = false
@@ -373,7 +409,11 @@ func execAPI(c *ctx, rng *rand.Rand, pl *apiPool, s skelStep, small []xy, blind 
 			k, err := secec.NewPrivateKey(pl.buf[s.B])
 			fail(err)
 			if err == nil {
-				pl.priv, pl.pub = k, k.PublicKey()
+				if c.n%2 == 0 { // the crypto.Signer view first, on a key object whose PublicKey() was never called
+					pl.priv, pl.pub = k, k.Public().(*secec.PublicKey)
+				} else {
+					pl.priv, pl.pub = k, k.PublicKey()
+				}
 			}
 		case "key.NewPrivateFromScalar":
 			k, err := secec.NewPrivateKeyFromScalar(pl.sc[s.S])
